@@ -146,6 +146,8 @@ func genOps(b bias, guard bool) []mach.Op {
 			ops = append(ops, mach.Op{Name: "mutnested", K: pickS(bkeys)})
 		case r < 0.83+b.emit:
 			ops = append(ops, mach.Op{Name: "mutprops"})
+		case r < 0.87+b.emit:
+			ops = append(ops, mach.Op{Name: "propcount", K: pickS(bkeys)})
 		}
 	}
 	// terminal behaviour
